@@ -151,7 +151,14 @@ impl Observer {
     /// Enter a block into the global table (from any source that shows its full content).
     pub fn learn_block(&mut self, b: &Block, seq: u64) -> Digest {
         let d = ident::block_digest(b);
-        if !self.blocks.contains_key(&d) {
+        // The digest does not bind the signature, the QC's votes or the TC: several variants may
+        // share it. Keep the first one, but prefer a fully valid variant once one shows up.
+        let replace = match self.blocks.get(&d) {
+            None => true,
+            Some(rec) => rec.valid.is_err() && ident::content_id(&rec.block) != ident::content_id(b) && ident::check_block(b, &self.members).is_ok(),
+        };
+        if replace {
+            let fresh = !self.blocks.contains_key(&d);
             let mut enc: Vec<u8> = Vec::new();
             enc.extend_from_slice(&b.author.0);
             enc.extend_from_slice(&b.round.to_be_bytes());
@@ -162,12 +169,16 @@ impl Observer {
             enc.extend_from_slice(&b.qc.hash.0);
             let bound_id = ident::bytes_digest(&enc);
             let valid = ident::check_block(b, &self.members);
-            self.ext.children.entry(b.qc.hash.clone()).or_default().push(d.clone());
+            if fresh {
+                self.ext.children.entry(b.qc.hash.clone()).or_default().push(d.clone());
+            }
             self.blocks.insert(
                 d.clone(),
                 BlockRec { block: b.clone(), digest: d.clone(), parent: b.qc.hash.clone(), round: b.round, first_seq: seq, valid, bound_id },
             );
-            crate::monitors::on_block_learned(self, &d);
+            if fresh {
+                crate::monitors::on_block_learned(self, &d);
+            }
         }
         d
     }
